@@ -1,6 +1,6 @@
 ----------------------------- MODULE Trace_Zone -----------------------------
 (* impl -> spec for ZonedDateTime / TimeZone calls over synthetic zones (C13, C14): the zone travels with every event. *)
-EXTENDS ZonedArith, TraceBase
+EXTENDS ZonedRound, Duration, TraceBase
 VARIABLES l
 tvars == <<l>>
 E == Rec[l]
@@ -16,14 +16,22 @@ Expected(e) ==
     [] e.op = "Zoned.until" -> ZUntil(Z(e), e.args.t, e.args.other, Largest(e))
     [] e.op = "Zoned.since" -> ZSince(Z(e), e.args.t, e.args.other, Largest(e))
     [] e.op = "Zoned.startOfDay" -> Ok(ZStartOfDay(Z(e), e.args.t))
+    [] e.op = "ZDur.round" -> ZRoundRel(Z(e), e.args.t, e.args.recv, St(e).largest, St(e).smallest, St(e).inc, St(e).mode)
+    [] e.op = "ZDur.total" -> ZTotalRel(Z(e), e.args.t, e.args.recv, e.args.unit)
+    [] e.op = "ZDur.compare" -> ZCompareRel(Z(e), e.args.t, e.args.recv, e.args.other)
     [] e.op = "Zoned.hoursInDay" -> LET n == DayLength(Z(e), e.args.t) IN IF n % 3600 = 0 THEN Ok(n \div 3600) ELSE [kind |-> "any"]
-Matches(e) == LET x == Expected(e) IN IF x.kind = "any" THEN e.out.kind \in {"ok", "range"} ELSE x = e.out
+Matches(e) == LET x == Expected(e)
+              IN IF x.kind = "any" THEN e.out.kind \in {"ok", "range"}
+                 ELSE IF e.op = "ZDur.total" /\ x.kind = "ok" THEN e.out.kind = "ok" /\ F64Approximates(e.out.val.m, e.out.val.e, FromInt(x.val.n), FromInt(x.val.d))
+                 ELSE x = e.out
 ZoneTag(z) == (IF NT(z) = 0 THEN "fixed" ELSE IF \E i \in 1..NT(z) : AbsI(SegOff(z, i) - SegOff(z, i - 1)) > 3 * 3600 THEN "big-jump" ELSE "small-jump")
               \o (IF CloseTransitions(z) THEN "/close-transitions" ELSE "")
 ClsOf(e) ==
   CASE e.op = "Zoned.fromLocal" -> Classify(Z(e), e.args.w) \o "/" \o e.args.dis \o "/" \o ZoneTag(Z(e))
     [] e.op = "Zoned.fromStr" -> e.args.offk \o "/" \o e.args.offopt \o "/" \o Classify(Z(e), e.args.w) \o "/" \o ZoneTag(Z(e))
     [] e.op \in {"Zoned.until", "Zoned.since"} -> Largest(e) \o "/" \o ZoneTag(Z(e))
+    [] e.op = "ZDur.round" -> "lg-" \o St(e).largest \o "/sm-" \o St(e).smallest \o "/" \o ZoneTag(Z(e))
+    [] e.op = "ZDur.total" -> e.args.unit \o "/" \o ZoneTag(Z(e))
     [] OTHER -> ZoneTag(Z(e))
 TInit == l = 1
 TNext == /\ l <= NEv /\ l' = l + 1
